@@ -74,14 +74,23 @@ def part_exact(weights, k: int) -> int:
     raise AssertionError("k out of range")
 
 
+def groups_meeting(weights, lo, hi):
+    """positive-weight groups whose exact interval [c_{i-1}, c_i) meets the open interval (lo, hi)
+    of the scaled axis x = u*T"""
+    out, c = set(), Fraction(0)
+    for i, w in enumerate(weights):
+        if w > 0 and c < hi and c + w > lo:
+            out.add(i)
+        c += w
+    return out
+
+
 def part_allowed(weights, k: int):
-    """Groups acceptable at grid point k with the one-grid-point-per-boundary tolerance:
-    exact group of k-1, k, k+1 - and never a zero-weight group."""
-    out = set()
-    for kk in (k - 1, k, k + 1):
-        if 0 <= kk < (1 << 32):
-            out.add(part_exact(weights, kk))
-    return {i for i in out if weights[i] > 0}
+    """Groups acceptable at grid point k with the one-grid-point-per-boundary tolerance: every
+    positive-weight group whose exact interval meets ((k-1)T/2^32, (k+1)T/2^32) - this contains the
+    exact groups of k-1, k, k+1 and sub-grid-point groups lying between them; never a zero weight."""
+    T = sum(weights)
+    return groups_meeting(weights, Fraction(k - 1) * T / (1 << 32), Fraction(k + 1) * T / (1 << 32))
 
 
 def float_exact(weights, k: int) -> bool:
